@@ -13,14 +13,15 @@ CONFIG = {
         "go/types Sizes(gc, amd64) for the BoardHeaderRaw layout; cross-checked against unsafe.Offsetof/Sizeof and the compiled constants by the `layout` op",
     ],
     "modelled": ["ptt.NewBoard", "ptt.groupOp", "ptt.is_uBM", "ptt.mNewbrd", "ptt.addBoardRecord", "ptt.LoadBoardSummary (its write to Shm.BCache)",
-                 "ptt.IsBMCache", "cache.GetBid", "cache.getBidByNameCore", "cache.ResetBoard", "cache.buildBMCache", "cache.ParseBMList",
+                 "ptt.IsBMCache", "bbs.CreateBoard (wrapper)", "bbs.UUserID.ToRaw", "ptt.InitCurrentUser (record + SYSOP/guest levels)", "cache.GetBid", "cache.getBidByNameCore", "cache.ResetBoard", "cache.buildBMCache", "cache.ParseBMList",
                  "cache.SanitizeBMs", "cache.AddbrdTouchCache", "cache.SortBCache", "ptttype.BoardID_t.IsValid", "ptttype.NewBM",
                  "types.Cstrcmp", "types.Cstrcasecmp", "cmsys.SubstituteRecord", "cmsys.AppendRecord"],
     "assumptions": [
         "the theorems are stated for well-formed states: .BRD holds exactly BNumber <= MAX_BOARD complete records, the shared copy equals the records up to FirstChild (and the post-mask bit of hidden boards), both indexes are sorted permutations, occupied names are pairwise distinct up to letter case; other tables (torn tail, more than MAX_BOARD records, duplicate names) are compared with the model, not judged",
         "single process: BBusyState and BusyStateB are 0 (the busy branches of ResetBoard/SortBCache/GetBid are not modelled)",
-        "no hidden-board friend list is loaded for the slot of a new board (Shm.Hbfl empty, no `visible` file)",
-        "ptt.NewBoard is driven directly (bbs.CreateBoard only copies its arguments and calls ptttype.NewBM, which is driven on its own by the `newbm` op)",
+        "no hidden-board friend list names the caller for the slot of a new board (Shm.Hbfl empty; a new board has no `visible` file and, since 1b78546, HbflReload empties the list when the file is gone)",
+        "configuration: ptttype.DEFAULT_AUTOCPLOG is the only package variable the creation rules consult; it is part of every request line and driven in both values (set in-process around the call, restored)",
+        "both ptt.NewBoard (`create`) and bbs.CreateBoard (`bcreate`: string arguments, the caller's level read from .PASSWDS) are driven; ptttype.NewBM also on its own (`newbm`)",
         "pwcuBitEnableLevel (called by groupOp and IsBMCache) discards the result of pwcuEnableBit: it rewrites the caller's .PASSWDS record unchanged and is modelled as a no-op",
     ],
 }
